@@ -128,7 +128,7 @@ def run(prop, tier):
             if fid in openf:
                 rep.known_finding(fid, SUMMARY[fid])
         rep.cov["known_finding_cases"] = known
-        viol.sort(key=lambda x: (len(x["sig"]), len(x["call"][1]), x["call"][0], json.dumps([x["sig"], x["call"], x["opt"], x["variant"] if "variant" in x else 0])))
+        viol.sort(key=lambda x: (sum(len(q[2]) > 1 for q in x["sig"]), len(x["sig"]), len(x["call"][1]), x["call"][0], json.dumps([x["sig"], x["call"], x["opt"], x["variant"] if "variant" in x else 0])))
         total = sum(o["n_violations"] for o in outs)
         rep.cov["violating_executions"] = total
         chosen, seen = [], set()
